@@ -332,7 +332,10 @@ def _hdoc_target():
 
 # --------------------------------------------------------------------------- printable objects
 PP_DATA = {"name": "x", "n": 12, "f": 1.5, "flag": True, "none": None,
-           "list": [1, 2, {"a": [], "b": "c"}], "d": {"k": "v", 3: 4}, "e": {}}
+           "list": [1, 2, {"a": [], "b": "c"}], "d": {"k": "v", 3: 4}, "e": {},
+           "nest": {"in": {"deep": [3], "k": None}, "z": 1}}       # multi-line containers nested two deep
+# a second nested multi-line object printed by the *same* printer (the module level ak.ppobj.pp)
+PP2_DATA = {"x": 1, "y": {"deep": [3], "z": {"k": [1, 2], "m": {"q": [True]}}}, "w": [[1], [2, [3, None]]]}
 
 TABLE_RECORDS = [(1, "user 01", 10), (2, "user 02", 10), (3, "user 03", 999), (4, None, 20),
                  (5, "a|b+-", None), (6, "u6", 7), (7, "user 07", 7), (8, True, 5)]
@@ -340,9 +343,9 @@ TABLE_FMT = "id:1-4,name:3-6,status!,status/val:5,status/name:4-20,status/full:1
 SMALL_RECORDS = [(1, "ab", 10), (2, None, 999)]
 SMALL_FMT = "id,name:1-4,status!,status/name:3-6"
 
-OBJECT_KINDS = {"pp": "pp", "tbl": "table", "tbl2": "table", "tbl_s": "table", "tblu": "table",
+OBJECT_KINDS = {"pp": "pp", "pp2": "pp", "tbl": "table", "tbl2": "table", "tbl_s": "table", "tblu": "table",
                 "rec1": "recfmt", "rec2": "recfmt", "recr": "recfmt", "recu": "recfmt", "gh": "ghist", "hd": "hdoc"}
-ITERABLE = ("pp", "tbl", "tbl2", "tbl_s", "tblu", "gh")
+ITERABLE = ("pp", "pp2", "tbl", "tbl2", "tbl_s", "tblu", "gh")
 # 'tblu' / 'recu' share the enum field type with the other tables / formatters of the world and contain
 # values that are not in the enum: one longer (404404) and one shorter (4) than every enum value
 UNKNOWN_RECORDS = [(1, "a", 404404), (2, "b", 4), (3, "c", 10), (4, "d", 999)]
@@ -414,9 +417,13 @@ def build_object(name, shared):
     if "enum" not in shared:
         shared["enum"] = make_enum()
     enum = shared["enum"]
-    if name == "pp":
-        from ak.ppobj import PrettyPrinter
-        return Printable(name, kind, json.loads(json.dumps(PP_DATA)) | {3: [True, None, 2.5]}, PrettyPrinter())
+    if name in ("pp", "pp2"):
+        # both results come from the one shared, long-lived printer object every user of the package gets
+        # (its module / instance state is part of what StateSnapshot restores between histories)
+        from ak import ppobj
+        data = json.loads(json.dumps(PP_DATA)) | {3: [True, None, 2.5]} if name == "pp" else \
+            json.loads(json.dumps(PP2_DATA))
+        return Printable(name, kind, data, ppobj.pp)
     if name == "tbl":
         t = PPTable(list(TABLE_RECORDS), fields=["id", "name", "status"], fields_types={"status": enum},
                     fmt=TABLE_FMT, header="Users of the system")
